@@ -91,7 +91,9 @@ func drawC18(t *rapid.T) c18Case {
 		}
 		return []string{"no_such_call", "READ", "exit_grp", "sys_read"}[rapid.IntRange(0, 3).Draw(t, label+"Unknown")]
 	}
-	seps := []string{",", " ", ";", ", ", " ; "}
+	// separators: blank, comma, semicolon as in the README's examples, and the other white space a shell hands over
+	// when the list comes from a file or a here-document (-b "$(cat names.txt)": line breaks, tabs)
+	seps := []string{",", " ", ";", ", ", " ; ", "\n", "\t", " \n", "\r\n"}
 	build := func(label string, preferFound bool) []string {
 		var flags []string
 		mine := map[string]bool{}
@@ -117,7 +119,11 @@ func drawC18(t *rapid.T) c18Case {
 				names = append(names, n)
 			}
 			if len(names) > 0 {
-				flags = append(flags, strings.Join(names, seps[rapid.IntRange(0, len(seps)-1).Draw(t, label+"Sep")]))
+				v := strings.Join(names, seps[rapid.IntRange(0, len(seps)-1).Draw(t, label+"Sep")])
+				if rapid.IntRange(0, 5).Draw(t, label+"TrailingNewline") == 0 {
+					v += "\n"
+				}
+				flags = append(flags, v)
 			}
 		}
 		return flags
@@ -135,7 +141,7 @@ func drawC18(t *rapid.T) c18Case {
 }
 
 func splitFlag(v string) []string {
-	return strings.FieldsFunc(v, func(r rune) bool { return r == ',' || r == ';' || r == ' ' || r == '\t' || r == '\n' })
+	return strings.FieldsFunc(v, func(r rune) bool { return r == ',' || r == ';' || r == ' ' || r == '\t' || r == '\n' || r == '\r' })
 }
 
 // namesFromGo reads the string list out of the generated Go source.
